@@ -8,4 +8,5 @@ for c in "$@"; do
 done
 git -C /repo checkout -- .
 (cd /verif/harness && RUSTFLAGS="--cfg rbpf_verif" cargo build --release --offline 2>&1 | grep -E "^error" -A5 || true)
+(cd /verif/harness_nostd && RUSTFLAGS="--cfg rbpf_verif --cfg harness_nostd" cargo build --release --offline 2>&1 | grep -E "^error" -A5 || true)
 git -C /repo status --short | head -3
